@@ -76,6 +76,30 @@ func freshHome() string {
 	return d
 }
 
+// copyWasmState copies the stored contract code (not the lock file, not the compiled-module cache).
+func copyWasmState(src, dst string) {
+	_ = filepath.Walk(src, func(path string, info os.FileInfo, err error) error {
+		if err != nil {
+			return nil
+		}
+		rel, _ := filepath.Rel(src, path)
+		if info.IsDir() {
+			if info.Name() == "cache" {
+				return filepath.SkipDir
+			}
+			return os.MkdirAll(filepath.Join(dst, rel), 0o755)
+		}
+		if strings.HasSuffix(info.Name(), ".lock") {
+			return nil
+		}
+		bz, err := os.ReadFile(path)
+		if err != nil {
+			return nil
+		}
+		return os.WriteFile(filepath.Join(dst, rel), bz, 0o644)
+	})
+}
+
 // CometVal is the stub's view of one consensus validator.
 type CometVal struct {
 	PubKey []byte // ed25519
@@ -110,6 +134,7 @@ type BlockResult struct {
 
 // Node is the real application plus the CometBFT stub state.
 type Node struct {
+	home    string // home directory of the current application object
 	DB      dbm.DB
 	App     *app.App
 	Logger  *CaptureLogger
@@ -158,7 +183,14 @@ func NewNode(db dbm.DB, chainID string) *Node {
 
 func (n *Node) boot() {
 	n.Logger = NewCaptureLogger()
-	opts := simtestutil.NewAppOptionsWithFlagHome(freshHome())
+	// every application object gets its own home directory (the wasm VM keeps an exclusive lock on it until the process
+	// exits); what is durable there - the stored contract code - is carried over from the node's previous home
+	home := freshHome()
+	if n.home != "" {
+		copyWasmState(filepath.Join(n.home, "wasm"), filepath.Join(home, "wasm"))
+	}
+	n.home = home
+	opts := simtestutil.NewAppOptionsWithFlagHome(home)
 	bo := append([]func(*baseapp.BaseApp){baseapp.SetChainID(n.ChainID)}, n.Opts...)
 	n.App = app.New(n.Logger, n.DB, nil, true, opts, bo...)
 }
